@@ -245,6 +245,24 @@ func structuralSets() []modset {
 			"t": hdr("t") + " container top { leaf l1 { type string; } leaf l2 { type string; } } }",
 			"a": hdr("a", "t") + " deviation /t:top/t:l1 { deviate not-supported; } }",
 			"b": hdr("b", "t") + " deviation /t:top/t:l2 { deviate replace { type int8; } } }"}, "ok"},
+		// non-commuting deviations of ONE leaf from two modules that no import relates, with a
+		// third module importing both: whatever the outcome is, it must not depend on any map order
+		{"deviations-same-leaf-replace-replace", map[string]string{
+			"t":   hdr("t") + " container top { leaf l { type int8; default 1; } } }",
+			"da":  hdr("da", "t") + " deviation /t:top/t:l { deviate replace { default 2; } } }",
+			"db":  hdr("db", "t") + " deviation /t:top/t:l { deviate replace { default 3; } } }",
+			"aaa": hdr("aaa", "db", "da", "t") + " container all { leaf x { type string; } } }"}, "any"},
+		{"deviations-same-leaf-add-replace", map[string]string{
+			"t":   hdr("t") + " container top { leaf l { type int8; } } }",
+			"da":  hdr("da", "t") + " deviation /t:top/t:l { deviate add { default 2; } } }",
+			"db":  hdr("db", "t") + " deviation /t:top/t:l { deviate replace { default 3; } } }",
+			"aaa": hdr("aaa", "da", "db", "t") + " container all { leaf x { type string; } } }"}, "any"},
+		{"augments-same-target-then-augment-of-augment", map[string]string{
+			"t":   hdr("t") + " container top { leaf base { type string; } } }",
+			"ma":  hdr("ma", "t") + " augment /t:top { container mid { leaf m { type string; } } } }",
+			"mb":  hdr("mb", "t", "ma") + " augment /t:top/ma:mid { leaf deep { type int8; } } }",
+			"mc":  hdr("mc", "t") + " augment /t:top { leaf other { type string; } } }",
+			"aaa": hdr("aaa", "mc", "mb", "ma", "t") + " container all { leaf x { type string; } } }"}, "ok"},
 		{"many-siblings", map[string]string{"a": hdr("a") + " container c { leaf l1 { type string; } leaf l2 { type int8; default 1; } leaf l3 { type boolean; } leaf l4 { type string; } list li { key k; leaf k { type string; } unique \"u1 u2\"; leaf u1 { type string; } leaf u2 { type string; } } choice ch { default c1; case c1 { leaf x1 { type string; default d; } } case c2 { leaf x2 { type string; } } } } }"}, "ok"},
 		{"identities-diamond", map[string]string{
 			"a": hdr("a") + " identity root; identity l { base root; } identity r { base root; } identity leafid { base l; } leaf ref { type identityref { base root; } } }",
